@@ -19,7 +19,8 @@ OUTSIDE = ['documents longer than the bounds except through T2 (induction on lin
            'nesting deeper than the skeletons; recursion-limit behaviour; wall-clock on large inputs']
 
 
-def renderer_groups():
+def renderer_table():
+    """name -> (class, option kind)"""
     from mistletoe.html_renderer import HtmlRenderer
     from mistletoe.markdown_renderer import MarkdownRenderer
     from mistletoe.latex_renderer import LaTeXRenderer
@@ -29,24 +30,22 @@ def renderer_groups():
     from mistletoe.contrib.mathjax import MathJaxRenderer
     from mistletoe.contrib.jira_renderer import JiraRenderer
     from mistletoe.contrib.xwiki20_renderer import XWiki20Renderer
-    g = {
-        'html': [('Html', HtmlRenderer, 'html'), ('Toc', TocRenderer, 'toc'), ('GithubWiki', GithubWikiRenderer, 'html')],
-        'markdown': [('Markdown', MarkdownRenderer, 'md')],
-        'latex': [('LaTeX', LaTeXRenderer, ''), ('MathJax', MathJaxRenderer, 'html')],
-        'wiki': [('Jira', JiraRenderer, ''), ('XWiki20', XWiki20Renderer, '')],
-        # json.dumps is C-level: CrossHair realises what reaches it, so Ast only runs on finite alphabets
-        'ast': [('Ast', AstRenderer, '')],
-    }
+    t = {'Html': (HtmlRenderer, 'html'), 'Toc': (TocRenderer, 'toc'), 'GithubWiki': (GithubWikiRenderer, 'html'),
+         'Markdown': (MarkdownRenderer, 'md'), 'LaTeX': (LaTeXRenderer, ''), 'MathJax': (MathJaxRenderer, 'html'),
+         'Jira': (JiraRenderer, ''), 'XWiki20': (XWiki20Renderer, ''),
+         # json.dumps is C-level: CrossHair realises what reaches it, so Ast only runs on finite alphabets
+         'Ast': (AstRenderer, '')}
     try:
         from mistletoe.contrib import pygments_renderer as pr
-        g['html'].append(('Pygments', pr.PygmentsRenderer, 'pyg'))
+        t['Pygments'] = (pr.PygmentsRenderer, 'pyg')
     except Exception:
         pass
-    return g
+    return t
 
 
-GROUPS = ['html', 'markdown', 'latex', 'wiki']
-GROUPS_FINITE = GROUPS + ['ast']
+RENDERERS = ['Html', 'Toc', 'GithubWiki', 'Pygments', 'Markdown', 'LaTeX', 'MathJax', 'Jira', 'XWiki20']   # one job each
+RENDERERS_FINITE = RENDERERS + ['Ast']
+MAIN = ['Html', 'Markdown', 'LaTeX', 'XWiki20', 'Jira']
 
 
 class _Lexer:
@@ -70,46 +69,51 @@ def stub_pygments(unknown):
     pr.highlight = lambda code, lexer, formatter: '<div class="highlight"><pre>' + code + '</pre></div>\n'
 
 
-def render_group(group, s, b1, b2, b3, L, depth):
-    """parse-and-render s under every renderer of the group; True iff each returns a str
-    (or raises one of the two documented refusals)"""
+def render_one(rname, s, b1, b2, b3, L, depth):
+    """parse-and-render s under one bundled renderer, supplied as str and (Html only: the input form is
+    handled by Document.__init__, before any renderer-specific code) as list of lines; True iff it returns a
+    str or raises one of the two documented refusals"""
     from mistletoe import Document
-    for name, cls, kind in renderer_groups()[group]:
-        kw = {}
-        if kind in ('html', 'toc', 'pyg'):
-            kw = {'html_escape_double_quotes': b1, 'html_escape_single_quotes': b2, 'process_html_tokens': b3}
-        if kind == 'toc':
-            kw.update(depth=depth, omit_title=b1)
-        if kind == 'pyg':
-            kw.update(fail_on_unsupported_language=b2)
-        if kind == 'md':
-            kw = {'max_line_length': L if b1 else None, 'normalize_whitespace': b2}
-        for form in range(2):
-            try:
-                with cls(**kw) as r:
-                    out = r.render(Document(s if form == 0 else s.split('\n')))
-            except RuntimeError as e:
-                if name in ('LaTeX', 'MathJax') and 'Unable to find delimiter' in str(e):
-                    continue
-                raise
-            except Exception as e:
-                if kind == 'pyg' and b2 and type(e).__name__ == 'ClassNotFound':
-                    continue
-                raise
-            if not isinstance(out, str):
-                return False
+    tbl = renderer_table()
+    if rname not in tbl:
+        return True
+    cls, kind = tbl[rname]
+    kw = {}
+    if kind in ('html', 'toc', 'pyg'):
+        kw = {'html_escape_double_quotes': b1, 'html_escape_single_quotes': b2, 'process_html_tokens': b3}
+    if kind == 'toc':
+        kw.update(depth=depth, omit_title=b1)
+    if kind == 'pyg':
+        kw.update(fail_on_unsupported_language=b2)
+    if kind == 'md':
+        kw = {'max_line_length': L if b1 else None, 'normalize_whitespace': b2}
+    for form in range(2 if rname == 'Html' else 1):
+        try:
+            with cls(**kw) as r:
+                out = r.render(Document(s if form == 0 else s.split('\n')))
+        except RuntimeError as e:
+            if rname in ('LaTeX', 'MathJax') and 'Unable to find delimiter' in str(e):
+                continue
+            raise
+        except Exception as e:
+            if kind == 'pyg' and b2 and type(e).__name__ == 'ClassNotFound':
+                continue
+            raise
+        if not isinstance(out, str):
+            return False
     return True
 
 
 def _t1_quick():
-    out = [{'k': 1, 'sigma': True, 'g': g} for g in GROUPS]
-    out += by('g', GROUPS_FINITE, by('c1', list('>-*`[#'), [{'k': 2, 'sigma': False}]))
+    out = [{'k': 1, 'sigma': True, 'r': r} for r in RENDERERS]
+    out += [{'k': 2, 'sigma': False, 'r': r, 'c1': c} for r in ('Html', 'Markdown', 'XWiki20', 'Ast') for c in '>-']
     return out
 
 
 def _t1_thorough():
-    out = [{'k': 1, 'sigma': True, 'g': g} for g in GROUPS] + [{'k': 2, 'sigma': True, 'g': g, 'timeout': 6000} for g in GROUPS]
-    out += by('g', GROUPS_FINITE, by('c1', list(ALPH14), [{'k': 2, 'sigma': False}, {'k': 3, 'sigma': False, 'timeout': 6000}]))
+    out = [{'k': 1, 'sigma': True, 'r': r} for r in RENDERERS] + [{'k': 2, 'sigma': True, 'r': r, 'timeout': 6000} for r in MAIN]
+    out += [{'k': 2, 'sigma': False, 'r': r, 'c1': c} for r in RENDERERS_FINITE for c in ALPH14]
+    out += [{'k': 3, 'sigma': False, 'r': r, 'c1': c, 'timeout': 6000} for r in MAIN for c in ALPH14]
     return out
 
 
@@ -117,16 +121,16 @@ def _t1_thorough():
        stubs=['urllib.parse.quote -> contract stub', 'pygments highlight/get_lexer/guess_lexer -> nondeterministic stubs'],
        covers=['__init__.py:markdown', 'block_token.py:Document.__init__', 'block_tokenizer.py:tokenize_block', 'span_tokenizer.py:tokenize',
                'base_renderer.py:BaseRenderer.render'],
-       note='document of k characters (over Σ, or over the 14 Markdown-significant characters), supplied as str and as list of lines; every renderer of the group, options symbolic (booleans; max_line_length and depth unbounded ints)')
+       note='document of k characters (over Σ, or over the 14 Markdown-significant characters), one bundled renderer per job, its options symbolic (booleans; max_line_length and depth unbounded ints)')
 def t1_pipeline(c1: int, c2: int, c3: int, b1: bool, b2: bool, b3: bool, L: int, depth: int, unknown: bool) -> bool:
     """
     pre: (all_ok(cp_ok, P('k'), c1, c2, c3) if P('sigma') else all_in(ALPH14, P('k'), c1, c2, c3)) and fixed(c1, 'c1')
-    pre: L >= 1
+    pre: L >= 1 and (P('r') != 'Ast' or not P('sigma'))
     post: _
     """
     install_quote()
     stub_pygments(unknown)
-    return render_group(P('g'), S(P('k'), c1, c2, c3), b1, b2, b3, L, depth)
+    return render_one(P('r'), S(P('k'), c1, c2, c3), b1, b2, b3, L, depth)
 
 
 # ------------------------------------------------------------------------------ T2 reader progress
@@ -149,7 +153,7 @@ def no_nl(k, *cps):
     return True
 
 
-@lemma('T2.progress', 'C01', quick=[{'reader': r, 'k': k} for r in READERS for k in (1, 2, 3)],
+@lemma('T2.progress', 'C01', quick=[{'reader': r, 'k': k} for r in READERS for k in (1, 2)] + [{'reader': r, 'k': 3} for r in ('BlockCode', 'Quote', 'List', 'Paragraph', 'Footnote')],
        thorough=[{'reader': r, 'k': k} for r in READERS for k in (1, 2, 3, 4)], timeout=600, per_path=90,
        covers=['block_tokenizer.py:tokenize_block', 'block_tokenizer.py:FileWrapper.backstep', 'block_token.py:Quote.read',
                'block_token.py:Paragraph.read', 'block_token.py:ListItem.read', 'block_token.py:BlockCode.read', 'block_token.py:Footnote.read'],
@@ -236,20 +240,20 @@ SKELETONS = {
 }
 
 
-@lemma('T3.constructs', 'C01', quick=[{'sk': s, 'g': g} for s in ('empty-quote', 'empty-item', 'emphasis', 'table', 'fence', 'link', 'image-alt') for g in GROUPS_FINITE],
-       thorough=[{'sk': s, 'g': g} for s in sorted(SKELETONS) for g in GROUPS_FINITE], timeout=900, per_path=150,
+@lemma('T3.constructs', 'C01', quick=[{'sk': s, 'r': r} for s in ('empty-quote', 'empty-item', 'image-alt') for r in ('Html', 'Markdown', 'LaTeX', 'Jira', 'XWiki20')],
+       thorough=[{'sk': s, 'r': r, 'timeout': 3000} for s in sorted(SKELETONS) for r in RENDERERS_FINITE], timeout=900, per_path=150,
        stubs=['urllib.parse.quote -> contract stub', 'pygments -> stubs'],
        covers=['block_token.py:Document.__init__', 'base_renderer.py:BaseRenderer.render'],
-       note='one skeleton per block / inline construct with a hole filled by ONE symbolic character over Σ (or nothing); every renderer of the group')
+       note='one skeleton per block / inline construct with a hole filled by ONE symbolic character over Σ (or nothing); one bundled renderer per job')
 def t3_constructs(c1: int, has: bool, b1: bool, b2: bool, b3: bool, L: int, depth: int, unknown: bool) -> bool:
     """
-    pre: (cp_in(c1, ALPH14) if P('g') == 'ast' else cp_ok(c1)) and L >= 1
+    pre: (cp_in(c1, ALPH14) if P('r') == 'Ast' else cp_ok(c1)) and L >= 1
     post: _
     """
     install_quote()
     stub_pygments(unknown)
     s = SKELETONS[P('sk')].format(chr(c1) if has else '')
-    return render_group(P('g'), s, b1, b2, b3, L, depth)
+    return render_one(P('r'), s, b1, b2, b3, L, depth)
 
 
 def witness_empty_quote():
